@@ -111,7 +111,9 @@ func runHist(rf *RunFile, g *Gen, nOps int) *RunOutcome {
 		return out
 	}
 	defer be.Destroy()
-	e, err := NewExec(be, dir, rf.IDSeed, execOptFromCfg(rf.Cfg))
+	opt := execOptFromCfg(rf.Cfg)
+	opt.Focus = rf.Prop
+	e, err := NewExec(be, dir, rf.IDSeed, opt)
 	if err != nil {
 		out.Trouble = err
 		return out
@@ -138,7 +140,9 @@ func runHist(rf *RunFile, g *Gen, nOps int) *RunOutcome {
 	if e.V == nil && !e.closed {
 		e.cur = nil
 		e.opIdx = len(rf.Ops)
+		e.plainAudit = true
 		e.Audit()
+		e.plainAudit = false
 	}
 	out.V = e.V
 	out.Stats = e.Stats
@@ -171,7 +175,8 @@ func (g *Gen) setupTwins() {
 	g.twins = [][]string{names}
 	g.Cfg.CollNames = names
 	w := g.Cfg.W
-	w["DropCollection"], w["CreateCollectionByQuery"], w["Export"], w["Import"] = 0, 0, 0, 0
+	w["CreateCollectionByQuery"], w["Export"], w["Import"] = 0, 0, 0
+	w["DropCollection"] = 1 // all twins go and come back: what a drop leaves behind must not show in the re-created ones
 	w["CreateCollection"] = 0
 	w["HasCollection"], w["ListCollections"] = 0, 0
 }
